@@ -89,7 +89,7 @@ var (
 
 		// Some system glob
 		`:not\.active\.yet`, `@{busname}`, // dbus unique bus name
-		`:1\.[0-9]*`, `@{busname}`, // dbus unique bus name
+		`:1\.[0-9]+`, `@{busname}`, // dbus unique bus name
 		`@{bin}/(|ba|da)sh`, `@{sh_path}`, // collect all shell
 		`@{lib}/modules/[^/]+\/`, `@{lib}/modules/*/`, // strip kernel version numbers from kernel module accesses
 
